@@ -523,12 +523,16 @@ def encode(t, enc='utf-8'):
     for p in pieces_of(t):
         if p[0] == 'lit':
             out.append(('lit', p[1].encode(enc)))
+        elif p[2].get('ascii_blob') is not None:
+            b = p[2]['ascii_blob']
+            out.append(('view', b, z3.IntVal(0), b.length))
         else:
             key = p[1].sexpr()
             if key not in cache:
                 ln = e.newvar('utf8len', z3.IntSort())
                 e.add(ln >= z3.Length(p[1]), ln <= 4 * z3.Length(p[1]))
-                b = rope.Blob('utf8_%d' % _len(cache), ln, meta={'utf8_of': p})
+                b = rope.Blob('utf8_%d' % _len(cache), ln,
+                              meta={'utf8_of': p, 'excludes': p[2].get('nosep', '').encode('utf-8')})
                 cache[key] = b
             b = cache[key]
             out.append(('view', b, z3.IntVal(0), b.length))
@@ -548,6 +552,16 @@ def decode(r, enc='utf-8'):
         elif p[0] == 'view' and 'utf8_of' in p[1].meta and z3.simplify(p[2]).eq(z3.IntVal(0)) and \
                 (z3.simplify(p[3]).eq(z3.simplify(p[1].length)) or core.prove(p[3] == p[1].length)):
             out.append(p[1].meta['utf8_of'])
+        elif p[0] == 'view' and 'b64_of' in p[1].meta and z3.simplify(p[2]).eq(z3.IntVal(0)) and \
+                (z3.simplify(p[3]).eq(z3.simplify(p[1].length)) or core.prove(p[3] == p[1].length)):
+            # base64 output is ASCII: decodes to a text piece tied to the same blob
+            e = E()
+            cache = e.tags.setdefault('ascii', {})
+            if p[1].name not in cache:
+                t = z3.String('ascii_%s' % p[1].name)
+                e.add(z3.Length(t) == p[1].length)
+                cache[p[1].name] = ('sym', t, dict(nosep=':', nonempty=False, ascii_blob=p[1]))
+            out.append(cache[p[1].name])
         else:
             # arbitrary bytes: either not valid utf-8, or some unknown text
             e = E()
